@@ -556,8 +556,19 @@ def run_decode(ctx: Ctx, n_rounds: int, use_model: bool, full: bool):
         list_expect.append((got, replay, errtxt))
     if use_model:
         replies = ctx.driver().batch(lines + list_lines)
+        def kinds(ds, acc):
+            for d in ds:
+                acc.add(d[0])
+                if d[0] == "list":
+                    kinds([d[2]], acc)
+                elif d[0] in ("nested", "tuple"):
+                    kinds(d[1], acc)
+            return acc
         for ln, model, (impl, name, replay, probe) in zip(lines, replies[:len(lines)], expect):
             m = "err" if model.startswith("err") else model
+            ctx.count("model-branch:dec:" + ("ok" if model.startswith("ok") else model.replace(" ", ":")))
+            for k in kinds(descs[name], set()):
+                ctx.count(f"model-branch:fmt:{k}:{'ok' if model.startswith('ok') else 'err'}")
             if m == impl:
                 continue
             if impl == "err" and m.startswith("ok") and probe and "node-list" in probe[2] and "key" in probe[2].lower():
@@ -567,6 +578,8 @@ def run_decode(ctx: Ctx, n_rounds: int, use_model: bool, full: bool):
                          f"{'(' + probe[1] + ': ' + probe[2][:80] + ')' if probe else ''}", dict(replay, line=ln))
         for ln, model, (impl, replay, errtxt) in zip(list_lines, replies[len(lines):], list_expect):
             m = "err" if model.startswith("err") else model
+            ctx.count("model-branch:decl:" + ("ok" if model.startswith("ok") else model.replace(" ", ":")) +
+                      (":consume_all" if ln.startswith("decl 1") else ":keep-remainder"))
             if impl == "err" and m.startswith("ok") and "node-list" in errtxt and "key" in errtxt.lower():
                 ctx.count("decode:node-key-rejected(not modelled)")
                 continue
@@ -1014,6 +1027,11 @@ class World:
                     self.ctx.disagree(f"world {self.name}: model answered `{model}` to `{ln[:120]}`", {"line": ln})
                 continue
             impl, exn, replay, label = exp
+            if " | " in model:
+                model, tags = model.split(" | ", 1)
+                for t in set(tags.split(",")):
+                    if t:
+                        self.ctx.count("model-branch:" + t)
             if exn != "none":
                 continue     # already an oracle failure
             if not self.model_net:
@@ -1472,7 +1490,7 @@ async def run_receive(ctx: Ctx, use_model: bool, quick: bool):
                     ops.append(("add", rng.choice(spares)))
                 elif k == "addp":
                     ops.append(("addp", rng.choice(spares), rng.choice([PP, DP, bytes(range(22))])))
-                elif k == "close" and rng.random() < 0.3:
+                elif k == "close" and rng.random() < 0.6:
                     ops.append(("open", False))
                 elif k == "open":
                     ops.append(("open", True))
@@ -1503,7 +1521,7 @@ async def run_receive(ctx: Ctx, use_model: bool, quick: bool):
     w.network.reverse_ip_cache_size = 3              # so that the LRU eviction path runs (default 500)
     w.emit("net cap 3")
     holders = lambda a: [q for q in w.network.verified_peers if tuple(a) in [tuple(v) for v in q.addresses.values()]]  # noqa: E731
-    for step in range(150 if quick else 2500):
+    for step in range(400 if quick else 3000):
         for _ in range(rng.choice([1, 1, 2, 3])):
             op = rng.choice(["new", "new", "addv", "rmp", "rmp", "rma", "seta", "addv"])
             if op == "new" and len(w.peers) < 400:
@@ -1777,6 +1795,11 @@ async def run_transports(ctx: Ctx, use_model: bool, quick: bool):
     if use_model and lines:
         for ln, model, (impl, replay) in zip(lines, ctx.driver().batch(lines), expect):
             m = "exn" if (ln.startswith("cellhdr") and model.startswith("exn=")) else model
+            if ln.startswith("exit "):
+                for tok in model.split(" "):
+                    ctx.count("model-branch:exit:" + tok)
+            else:
+                ctx.count("model-branch:cellhdr:" + ("ok" if model.startswith("ok") else "header-short"))
             if m != impl:
                 ctx.disagree(f"{ln.split(' ')[0]}: model `{model[:160]}` != implementation `{impl[:160]}`", dict(replay, line=ln[:400]))
 
@@ -1828,6 +1851,7 @@ def run_snapshot(ctx: Ctx, n: int, use_model: bool):
     if use_model and lines:
         for ln, model, (impl, replay) in zip(lines, ctx.driver().batch(lines), expect):
             # the implementation stores addresses in a dict: duplicates collapse; compare as ordered de-duplicated lists
+            ctx.count("model-branch:snap:" + ("raises" if model.startswith("exn=") else "entries-%d" % min(model.count(";"), 2)))
             if model.startswith("exn="):
                 ctx.disagree(f"load_snapshot: the model raises ({model}) where the implementation returned", dict(replay, line=ln))
                 continue
@@ -1868,11 +1892,58 @@ def _run_all(ctx: Ctx, use_model: bool, quick: bool, decode_rounds: int, snaps: 
         logging.disable(lvl)
 
 
+# branch classes of the model's definitions (design.d/C03.md, "coverage table") that every full run must reach: the tie
+# between the hand-written definitions and the code is the differential run, so a branch nobody exercised is a branch
+# nobody compared.  A run in which one of them stays at zero is an infrastructure failure (exit 2), never a pass.
+REQUIRED_BRANCHES = """
+dec:ok dec:err:short dec:err:pack dec:err:addr dec:err:utf8
+decl:ok:consume_all decl:ok:keep-remainder decl:err:extra:consume_all decl:err:short:consume_all decl:err:pack:consume_all
+fmt:struct:ok fmt:struct:err fmt:bits:ok fmt:bits:err fmt:raw:ok fmt:raw:err fmt:varlen:ok fmt:varlen:err fmt:utf8:ok fmt:utf8:err
+fmt:ipv4:ok fmt:ipv4:err fmt:address:ok fmt:address:err fmt:list:ok fmt:list:err fmt:array:ok fmt:array:err
+fmt:nested:ok fmt:nested:err fmt:tuple:ok fmt:tuple:err fmt:flags:ok fmt:flags:err
+snap:entries-0 snap:entries-1 snap:entries-2
+iter:prefix-list iter:global-list ep:open ep:closed deliver:closed deliver:global deliver:prefix-registered
+com:foreign-prefix com:prefix-only com:no-handler com:handler com:on_cell
+cry:foreign-prefix cry:prefix-only cry:not-a-cell cry:cell
+cell:header-short cell:relay cell:unknown-circuit-encrypted cell:circuit-without-hops cell:plaintext cell:exit-decrypt
+cell:circuit-decrypt cell:decrypt-failed cell:decrypt-raised cell:empty-message cell:relay-early-rule
+cell:plaintext-not-create cell:to-tunnel-community
+oncell:header-short oncell:plaintext-empty oncell:plaintext-create oncell:plaintext-not-create oncell:encrypted-flag
+fc:handler fc:no-handler stats:untracked stats:prefix-only stats:counted inert
+fx:add-seen-by-running-loop fx:addp-iterated-prefix fx:addp-other-prefix fx:rm fx:open fx:close
+lk:cache-hit-valid lk:cache-stale-key-gone lk:cache-stale-other-object lk:cache-stale-address lk:scan-found lk:scan-none
+lk:scan-several lk:cache-full
+exit:utp=true exit:utp=false exit:trk=true exit:trk=false exit:dht=true exit:dht=false exit:v8=true exit:v8=false
+exit:tunneled exit:dropped cellhdr:ok cellhdr:header-short
+""".split()
+# implementation-side classes (what the real code was observed doing) that must not silently disappear either
+REQUIRED_OBSERVED = """
+recv:message-level:acc:accepted recv:message-level:rej:rejected recv:truncated-cell-header recv:source-kind:tuple
+recv:source-kind:UDPv6Address recv:source-kind:DomainAddress recv:gen:udp4 recv:gen:udp6 recv:gen:udp-not-running
+recv:reentrant-op:rm recv:reentrant-op:add recv:reentrant-op:close recv:network-op:rmp recv:network-op:rma
+recv:network-op:seta decode:value-checked-on-production-object exit:outcome:tunneled exit:outcome:dropped
+""".split()
+
+
+def check_coverage(ctx: Ctx):
+    import os
+    extra = os.environ.get("C03_REQUIRE_EXTRA", "").split()       # self-test hook: name a class that cannot be reached
+    missing = [b for b in REQUIRED_BRANCHES + extra if not ctx.counts.get("model-branch:" + b)]
+    missing += [b for b in REQUIRED_OBSERVED if not ctx.counts.get(b)]
+    ctx.extra["required_branch_classes"] = {"model": len(REQUIRED_BRANCHES), "observed": len(REQUIRED_OBSERVED),
+                                            "missing": missing}
+    if missing:
+        raise InfraError("coverage lost: branch classes that the design lists were not reached in this run: "
+                         + ", ".join(missing))
+
+
 def run(ctx: Ctx):
     if ctx.replay_input is not None:
         return replay(ctx, ctx.replay_input)
     quick = not ctx.thorough()
     _run_all(ctx, ctx.model_ok, quick, ctx.scale(12, 60), ctx.scale(2500, 20000))
+    if ctx.model_ok and not ctx.failures and not ctx.disagreements:
+        check_coverage(ctx)          # only a run that would otherwise pass can be refused for lost coverage
 
 
 def search(ctx: Ctx, reason: str):
